@@ -278,6 +278,8 @@ def one_job(pid, tier, seed, job, bins, only=None):
 
 def trace_props(op, why):
     """properties a rejected event contradicts: `why` names the group of conjuncts of Trace.tla that failed"""
+    if why == "PANIC":
+        return {"C04"}
     if why in ("WF", "CHAIN"):
         return {"C05", "C03"}
     if why == "VIOL":
@@ -321,7 +323,7 @@ def trace_job(pid, tier, seed, job, bins, tag, jkey):
     against spec/Trace.tla (the ideal dictionary of Dict.tla)."""
     outs = []
     bins = {k: v for k, v in bins.items() if k in job.get("profiles", ["debug", "release"])}
-    agg = {"tag": tag, "generated": 0, "distinct": 0, "emitted": 0, "wall": 0.0, "consts": {k: job[k] for k in ("mode", "runs", "steps", "caps", "classes")},
+    agg = {"tag": tag, "generated": 0, "distinct": 0, "emitted": 0, "wall": 0.0, "consts": {k: job.get(k) for k in ("mode", "runs", "steps", "caps", "classes", "inject")},
            "cmd": "harness trace ... ; TRACE=<file> tlc -workers 1 -config Trace.cfg Trace.tla (POSTCONDITION Accepted)", "ok": True}
     for prof, binp in bins.items():
         d = os.path.join(WORK, "trace-%s-%s" % (tag, prof))
@@ -330,7 +332,8 @@ def trace_job(pid, tier, seed, job, bins, tag, jkey):
         tr = os.path.join(d, "trace.ndjson")
         info = os.path.join(d, "info.json")
         p = subprocess.run(binp + ["trace", "--mode", job["mode"], "--seed", str(seed), "--runs", str(job["runs"]), "--steps", str(job["steps"]),
-                            "--caps", ",".join(map(str, job["caps"])), "--classes", str(job["classes"]), "--trace", tr, "--out", info],
+                            "--caps", ",".join(map(str, job["caps"])), "--classes", str(job["classes"]), "--inject", str(job.get("inject", 0)),
+                            "--trace", tr, "--out", info],
                            stdout=subprocess.PIPE, stderr=subprocess.STDOUT, text=True, timeout=3000)
         crashed = p.returncode != 0 or not os.path.exists(info)
         for f in os.listdir(SPEC):
@@ -541,6 +544,8 @@ def jobs_for(pid, tier):
                     caps=[8, 6, 4, 2], classes=12)
 
     tmap, tset = [trace("trace-map", "map")], [trace("trace-set", "set")]
+    # the same histories with user code panicking in about one call out of eight (C04 along long histories)
+    tinj = [dict(trace("trace-inj-map", "map"), inject=0.25), dict(trace("trace-inj-set", "set"), inject=0.25)]
     # one long history in a container of capacity 300 (slot indices beyond one byte)
     tbig = [dict(trace("trace-big", "map"), runs=(1 if q else 3), steps=(1500 if q else 2500), caps=[300], classes=400,
                  profiles=(["release"] if q else ["debug", "release"]))]
@@ -581,7 +586,7 @@ def jobs_for(pid, tier):
                + shaped(setcore) + both("setclone", ["clone"], mode="set")
                + shaped(both("bulk", ["bulk"], bigconsts={"MaxExtra": 1})) + shaped(both("setbulk", ["bulk"], mode="set", consts={"MaxExtra": 1}, bigconsts={"Vers": [0]}))
                + pairs("alg", ["algebra", "eq"], "set", qcaps[:2] if q else tcaps[:8]) + pairs("eqmap", ["eq"], "map", qcaps[:1] if q else tcaps[:4]),
-        "C04": micro_inject + [dict(j, sweep="inject") for j in
+        "C04": tinj + micro_inject + [dict(j, sweep="inject") for j in
                 both("core", ["core"]) + both("cef", ["cursor", "entry", "fmt", "unchecked"], consts={"Vers": [0]})
                 + both("bulkclone", ["bulk", "clone"], bigconsts={"MaxExtra": 1, "Vers": [0]})
                 + setcore + both("setbc", ["bulk", "clone"], mode="set", consts={"MaxExtra": 1}, bigconsts={"Vers": [0]})]
